@@ -29,11 +29,19 @@ fn key_roundtrips(ctx: &mut Ctx, d: &BigUint, cls: &str) {
     let pt = r2::mul(d, &r2::g()).unwrap();
     let w = json!({"d": hex::encode(r2::b32(d)), "class": cls});
     ctx.class(cls);
+    ctx.distinct("key", &[&r2::b32(d)]);
+    pub_roundtrips(ctx, &pt, &w);
+    key_roundtrips_private(ctx, d, &pt, &w);
+}
+
+/// every public-key format for one valid point (the private key need not be known)
+fn pub_roundtrips(ctx: &mut Ctx, pt: &(BigUint, BigUint), w: &serde_json::Value) {
+    let pt = pt.clone();
+    let w = w.clone();
     if r2::b32(&pt.0)[0] == 0 || r2::b32(&pt.1)[0] == 0 {
         ctx.class("pub_coordinate_leading_zero_byte");
     }
     ctx.class(if pt.1.bit(0) { "y_odd" } else { "y_even" });
-    ctx.distinct("key", &[&r2::b32(d)]);
     // ---- public key: SEC1 compressed / uncompressed
     for compressed in [false, true] {
         let enc = r2::encode(&pt, compressed);
@@ -96,6 +104,18 @@ fn key_roundtrips(ctx: &mut Ctx, d: &BigUint, cls: &str) {
             o => ctx.violation(&format!("Sm2PublicKey::new:valid-{}:{}", if compressed { "compressed" } else { "uncompressed" }, oc(&o)), json!({"case": w, "bytes": hex::encode(&enc)})),
         }
     }
+    // ---- reference-built SPKI document decodes
+    ctx.eval();
+    let spki = der::spki_encode(&r2::encode(&pt, false));
+    match guard(|| Sm2PublicKey::from_public_key_der(&spki)) {
+        Outcome::Ret(Ok(k2)) if same_pk(&k2, &pt) => {}
+        o => ctx.violation(&format!("from_public_key_der:reference-document:{}", oc(&o)), json!({"case": w})),
+    }
+}
+
+fn key_roundtrips_private(ctx: &mut Ctx, d: &BigUint, pt: &(BigUint, BigUint), w: &serde_json::Value) {
+    let pt = pt.clone();
+    let w = w.clone();
     // ---- encoders on key objects of every provenance (derived keys carry a Jacobian point with Z != 1)
     let mut pp = Prng::new(d.bits() ^ 0x77, "prov");
     for how in 0..3u64 {
@@ -134,13 +154,6 @@ fn key_roundtrips(ctx: &mut Ctx, d: &BigUint, cls: &str) {
             }
             o => ctx.violation(&format!("to_pkcs8_der:{}:{}", provenance(how), oc(&o)), w.clone()),
         }
-    }
-    // ---- reference-built SPKI / PKCS#8 documents decode
-    ctx.eval();
-    let spki = der::spki_encode(&r2::encode(&pt, false));
-    match guard(|| Sm2PublicKey::from_public_key_der(&spki)) {
-        Outcome::Ret(Ok(k2)) if same_pk(&k2, &pt) => {}
-        o => ctx.violation(&format!("from_public_key_der:reference-document:{}", oc(&o)), json!({"case": w})),
     }
     // ---- private key
     ctx.eval();
@@ -304,7 +317,7 @@ pub fn run(ctx: &mut Ctx) {
     for (n, ok) in r2::selftest() {
         ctx.selftest(&n, ok);
     }
-    ctx.require(&["edge_key", "random_key", "pub_coordinate_leading_zero_byte", "y_odd", "y_even", "pub_sec1", "pub_hex", "pub_spki", "priv_bytes", "priv_hex", "priv_pkcs8", "openssl_pkcs8", "openssl_spki", "openssl_sm2cipher", "asn1_encrypt", "asn1_decrypt", "asn1_zero_coord", "asn1_top_bit_set", "asn1_top_bit_clear", "reject_offcurve", "reject_coordinate_ge_p", "reject_coordinate_eq_p", "reject_wrong_length", "reject_wrong_pc_byte", "reject_priv_wrong_length", "key_from_gen_keypair", "key_with_jacobian_public_point"]);
+    ctx.require(&["edge_key", "random_key", "pub_coordinate_leading_zero_byte", "y_odd", "y_even", "pub_sec1", "pub_hex", "pub_spki", "priv_bytes", "priv_hex", "priv_pkcs8", "openssl_pkcs8", "openssl_spki", "openssl_sm2cipher", "asn1_encrypt", "asn1_decrypt", "asn1_zero_coord", "asn1_top_bit_set", "asn1_top_bit_clear", "reject_offcurve", "reject_coordinate_ge_p", "reject_coordinate_eq_p", "reject_wrong_length", "reject_wrong_pc_byte", "reject_priv_wrong_length", "key_from_gen_keypair", "key_with_jacobian_public_point", "crafted_pub_point"]);
     let c = r2::curve();
     // ---- key round trips
     let n = ctx.n(150, 6000);
@@ -320,6 +333,31 @@ pub fn run(ctx: &mut Ctx) {
         key_roundtrips(ctx, &d, if i % (ne + 40) < ne { "edge_key" } else { "random_key" });
         if i % 50 == 0 {
             ctx.sample(json!({"key_roundtrip": {"d": hex::encode(r2::b32(&d))}, "forms": "SEC1 compressed/uncompressed, hex, SPKI DER/PEM, FromStr, bytes, PKCS#8 DER/PEM, SEC1 DER"}));
+        }
+    }
+    // ---- public keys crafted so that an addition of the decoder's on-curve test lands on a carry / reduction boundary
+    {
+        let mut pc = ctx.prng("crafted_pub");
+        let reps = ctx.n(1, 8);
+        let mut idx = 0u64;
+        for rep in 0..reps {
+            let sub = pc.next();
+            // each shard generates only its share of the classes (generation costs a few modular square roots per point)
+            let mut q = Prng::new(sub, "cp");
+            let pts = crafted_points_sharded(&mut q, 1, ctx.shard as u64, ctx.nshards as u64);
+            for (name, pt) in pts {
+                idx += 1;
+                ctx.class("crafted_pub_point");
+                ctx.class(&format!("crafted:{}", name));
+                ctx.distinct("crafted_pub", &[&r2::b32(&pt.0)]);
+                let w = json!({"class": format!("crafted:{}", name), "x": hex::encode(r2::b32(&pt.0)), "y": hex::encode(r2::b32(&pt.1))});
+                pub_roundtrips(ctx, &pt, &w);
+                let neg = (pt.0.clone(), &c.p - &pt.1);
+                pub_roundtrips(ctx, &neg, &w);
+                if rep == 0 && idx == 1 {
+                    ctx.sample(w);
+                }
+            }
         }
     }
     // keys whose public point has a leading zero byte: scan small multiples (library used only to scan, reference confirms)
